@@ -27,6 +27,8 @@ def _match(e, want):
         while e[0] in want[1] and len(e) > 1:
             e = strip(e[1])
         return _match(e, want[2])
+    if isinstance(want, tuple) and want and want[0] == "any":      # ("any", p1, p2, ...): one of several spellings
+        return any(_match(e, w) for w in want[1:])
     if isinstance(want, tuple) and want and want[0] == "agg":
         return e[0] == "agg" and e[2] == want[1] and dict((k, None) for k, _ in e[3]).keys() == dict(want[2]).keys() and all(_match(dict(e[3])[k], w) for k, w in want[2])
     if isinstance(want, tuple) and isinstance(e, tuple):
@@ -42,7 +44,7 @@ TABLE = {
     AUXV + "get_entry_address": (("field", P1, "entry_address"), "the AT_ENTRY value", ("C18", "C08")),
     "dir_section::DirSection::position": (("field", ("field", P1, "section"), "position"), "the rva of the directory array", ("C01", "C10")),
     "linux::maps_reader::MappingInfo::name_is_path": (("call", "linux::maps_reader::is_mapping_a_path", (("field", P1, "name"),)), "is_mapping_a_path of the mapping's own name", ("C13", "C08")),
-    "linux::maps_reader::MappingInfo::end_address": (("bin", "Add", ("field", P1, "start_address"), ("field", P1, "size")), "start_address + size", ("C13",)),
+    "linux::maps_reader::MappingInfo::end_address": (("any", ("bin", "Add", ("field", P1, "start_address"), ("field", P1, "size")), ("bin", "Add", ("field", P1, "size"), ("field", P1, "start_address"))), "start_address + size", ("C13",)),
     "linux::maps_reader::MappingInfo::so_version": (("call", "linux::maps_reader::SoVersion::parse", (("peel", ("okval", "some", "ref", "deref"), ("field", P1, "name")),)), "the version suffix parsed from the mapping's own name", ("C08",)),
     "linux::thread_info::<impl linux::thread_info::x86::ThreadInfoX86>::create": (("call", "linux::thread_info::x86::ThreadInfoX86::create_impl", (P1, P2)), "create_impl(pid, tid) in that order", ("C04", "C05")),
     "linux::ptrace_dumper::PtraceDumper::get_thread_info_by_index": (
